@@ -1017,6 +1017,41 @@ NONE_METHODS = {"sort", "reverse", "append", "extend", "insert", "remove", "clea
                 "intersection_update", "symmetric_difference_update", "fill", "setdefault_"}
 
 
+def input_assertions(rep, prog, qnames, rule="ASSERT.input"):
+    """`assert <condition on the arguments as they arrived>` in a public function the check analysed: unless the condition holds for every input of the
+    property's quantifier, inputs are rejected with an AssertionError nobody documented.  Whether it always holds is not decided here: the site is
+    reported as undecided (exit 2), so that such a change does not pass silently.  Assertions about values the function computed itself are not touched."""
+    import builtins
+    n = 0
+    for q in sorted(qnames):
+        f = prog.funcs.get(q)
+        if f is None or f.module.name.startswith("drf") or f.name.startswith("_") or (f.cls and f.cls.startswith("_")):
+            continue
+        params = set(f.params)
+        assigned = {}
+        for node in ast.walk(f.node):
+            if isinstance(node, (ast.Assign, ast.AugAssign, ast.AnnAssign, ast.For, ast.With, ast.NamedExpr)):
+                tgts = node.targets if isinstance(node, ast.Assign) else [getattr(node, "target", None)] if not isinstance(node, ast.With) else [i_.optional_vars for i_ in node.items]
+                for t in tgts:
+                    for x in ast.walk(t) if t is not None else ():
+                        if isinstance(x, ast.Name):
+                            assigned.setdefault(x.id, []).append(getattr(node, "lineno", 0))
+        for node in ast.walk(f.node):
+            if not isinstance(node, ast.Assert):
+                continue
+            names = {x.id for x in ast.walk(node.test) if isinstance(x, ast.Name)}
+            names -= {y.id for x in ast.walk(node.test) if isinstance(x, ast.comprehension) for y in ast.walk(x.target) if isinstance(y, ast.Name)}
+            names -= {a_.arg for x in ast.walk(node.test) if isinstance(x, ast.Lambda) for a_ in x.args.args}
+            free = {x for x in names if x not in params and not hasattr(builtins, x) and x not in ("np", "numpy", "pd", "math")}
+            # only raw arguments: no local, and no parameter that was re-bound before this line
+            raw = names & params and not free and not any(any(ln <= node.lineno for ln in assigned.get(x, ())) for x in names & params)
+            n += 1
+            if raw:
+                rep.unk(rule, fwhere(f, node), "`%s` tests the arguments as they arrived: inputs for which it does not hold are rejected with an AssertionError; "
+                        "whether it holds for every input of the property is not decided" % norm(node)[:90])
+    rep.analysed["assert statements inspected"] = n
+
+
 def python_traps(rep, prog, qnames, rule="TRAP"):
     """Python / numpy idioms that run without an error and mean something else, looked for in every function the check analysed:
     np.all / np.any of a generator expression (always True); a value taken from a method that returns None (`x = x.sort()`,
@@ -1071,6 +1106,25 @@ def python_traps(rep, prog, qnames, rule="TRAP"):
                         bad += 1
                         rep.bad(rule + ".approx-branch", fwhere(f, node), "`%s` decides which computation runs: inputs that are within the (default: rtol 1e-5, atol 1e-8) tolerance "
                                 "but not equal - a variance of 1e-9, data with a large offset - silently take the special case" % norm(approx[0])[:70])
+            if isinstance(node, (ast.Assign, ast.AugAssign)):
+                # x.reshape(-1)[idx] = v / x.ravel()[idx] = v / x.flatten()[idx] = v: the store lands in x only when the reshaped array is a view
+                for tg in (node.targets if isinstance(node, ast.Assign) else [node.target]):
+                    if isinstance(tg, ast.Subscript) and isinstance(tg.value, ast.Call) and isinstance(tg.value.func, ast.Attribute) and tg.value.func.attr in ("reshape", "ravel", "flatten"):
+                        n += 1
+                        src = tg.value.func.value
+                        # provably C-contiguous: freshly allocated by numpy in this function (zeros / ones / empty / full / arange) or x.copy() (order='C' by default)
+                        fresh = False
+                        if isinstance(src, ast.Name):
+                            for st2 in ast.walk(f.node):
+                                if isinstance(st2, ast.Assign) and any(isinstance(t2, ast.Name) and t2.id == src.id for t2 in st2.targets) and isinstance(st2.value, ast.Call):
+                                    d2 = dotted_of(st2.value.func) or ""
+                                    fresh = d2 in ("np.zeros", "np.ones", "np.empty", "np.full", "np.arange", "numpy.zeros", "numpy.ones", "numpy.empty", "numpy.full") or \
+                                        (isinstance(st2.value.func, ast.Attribute) and st2.value.func.attr == "copy" and not st2.value.args and not st2.value.keywords)
+                        if tg.value.func.attr == "flatten" or not fresh:
+                            bad += 1
+                            rep.bad(rule + ".store-into-reshape", fwhere(f, node), "`%s`: %s - the values are written into a temporary and lost" % (
+                                norm(tg)[:70], ".flatten() always returns a copy" if tg.value.func.attr == "flatten" else
+                                ".%s() returns a copy, not a view, when the array is not C-contiguous (astype / asarray keep the caller's layout: a Fortran-ordered or transposed input)" % tg.value.func.attr))
             if isinstance(node, ast.Compare):
                 for op, c in zip(node.ops, node.comparators):
                     if isinstance(op, (ast.Is, ast.IsNot)):
